@@ -106,14 +106,14 @@ Qed.
 
 Definition mat_key (m : pmaterial) :=
   (pm_name m, option_map pbr_key (pm_pbr m), pm_emissive m, option_map texs_key (pm_normal m),
-   option_map texs_key (pm_occ m), pm_alpha m, pm_cutoff m, map mx_class (pm_exts m)).
+   option_map texs_key (pm_occ m), pm_alpha m, pm_cutoff m, map mx_class (pm_exts m), pm_extras m).
 Lemma opt_id {A} (o : option A) : option_map (fun x => x) o = o.
 Proof. destruct o; reflexivity. Qed.
 Lemma keyed_mat : keyed mat_equal mat_key.
 Proof.
-  intros a b. unfold mat_equal, mat_key. rewrite !andb_true_iff, String.eqb_eq, keyed_pbr, !keyed_ptexs, keyed_optN.
+  intros a b. unfold mat_equal, mat_key. rewrite !andb_true_iff, String.eqb_eq, keyed_pbr, !keyed_ptexs, keyed_optN, N.eqb_eq.
   rewrite (keyed_opt _ _ keyed_listN), (keyed_opt _ _ keyed_string), (keyed_list _ _ keyed_N), !opt_id, !map_id.
-  split; [intros (((((((-> & ->) & ->) & ->) & ->) & ->) & ->) & ->); reflexivity|intros E; repeat split; congruence].
+  split; [intros ((((((((-> & ->) & ->) & ->) & ->) & ->) & ->) & ->) & ->); reflexivity|intros E; repeat split; congruence].
 Qed.
 
 Theorem mat_equal_refl a : mat_equal a a = true.
